@@ -17,17 +17,18 @@ import (
 // A host is one consensus state whose element accumulator is being probed, with what is needed to
 // ask the real code through its public doors.
 type host struct {
-	cs    consensus.State
-	K     *chain.Keyring
-	child uint64
-	v1ok  bool // v1 transactions and supplements allowed in the child block
-	v2ok  bool // v2 transactions allowed in the child block
-	blk   *types.Block
-	blk2  *types.Block           // carrier with two v1 transactions (placement probes)
-	forms map[string]*carrierBlk // carrier blocks of the other forms (nil entry: not a valid block in this state)
-	fund  *types.SiacoinElement  // a genuine spendable element (for the carrier that holds one valid v2 transaction)
-	post  *host                  // the same accumulator in a state after RequireHeight (synthetic forests)
-	tr    *truth                 // what the history really holds: the source of the genuine copy in placement probes
+	cs     consensus.State
+	K      *chain.Keyring
+	child  uint64
+	v1ok   bool // v1 transactions and supplements allowed in the child block
+	v2ok   bool // v2 transactions allowed in the child block
+	blk    *types.Block
+	blk2   *types.Block           // carrier with two v1 transactions (placement probes)
+	forms  map[string]*carrierBlk // carrier blocks of the other forms (nil entry: not a valid block in this state)
+	fund   *types.SiacoinElement  // a genuine spendable element (for the carrier that holds one valid v2 transaction)
+	post   *host                  // the same accumulator in a state after RequireHeight (synthetic forests)
+	firsts map[[33]byte]*firstUse // honest first uses in the block, per element (second-use family)
+	tr     *truth                 // what the history really holds: the source of the genuine copy in placement probes
 	// a genuine live v2 contract per proof height (parents for storage proofs that carry a probed chain index)
 	proofParents map[uint64]*[2]*types.V2FileContractElement // [0]: contract with a non-empty file, [1]: with an empty file
 	alt          altValues
@@ -838,6 +839,54 @@ func judge(c *vlib.Ctx, st *stats, h *host, p probe, o judgeOpts) {
 	if p.spent {
 		return // the public doors ask "is it unspent / unresolved"
 	}
+	// second use in the block: an honest earlier transaction has revised (contracts) or spent (outputs) the genuine
+	// element with this ID; the presented element is the parent of a later transaction of the same block
+	if roles := reuseRoles(k); o.v2txn && len(roles) > 0 {
+		if fu := h.first(p.e); fu != nil && fu.ok {
+			for _, role := range roles {
+				// outputs spent earlier (every presentation is refused by ID: a sample suffices) and v1 contracts
+				// (always a whole block): every fourth / second probe and every genuine one
+				if !p.exp && ((k == kSC || k == kSF) && fp%4 != 1 || k == kFC && fp%2 != 1) {
+					continue
+				}
+				after := "-after-revision"
+				exp, needControl := p.exp, true
+				if k == kSC || k == kSF {
+					after, exp, needControl = "-after-spend", false, false
+				}
+				name := k.String() + "-" + role + after
+				accT, accB, built, dec, err, pan := h.askReuse(fu, p.e, role, p.exp || fp%4 == 0 || k == kFC)
+				if !built {
+					continue
+				}
+				whole := p.exp || fp%4 == 0 || k == kFC
+				st.mu.Lock()
+				if needControl && !dec && !accT && !accB && pan == nil {
+					st.nondec["reuse:"+name]++
+					st.mu.Unlock()
+					continue
+				}
+				st.noteP(&p, "reuse", name, accT)
+				if whole {
+					st.noteP(&p, "reuse-block", name, accB)
+				}
+				if !accT && p.tpath != "" {
+					st.field("reuse", k, p.tpath)
+				}
+				st.mu.Unlock()
+				extra := " after an honest first use of the genuine element earlier in the block"
+				if err != nil {
+					extra += " (" + err.Error() + ")"
+				}
+				if accT != exp || pan != nil {
+					report("reuse", name, accT, pan, extra)
+				}
+				if whole && (accB != exp || pan != nil) {
+					report("reuse-block", name, accB, pan, extra)
+				}
+			}
+		}
+	}
 	for _, role := range txRoles(k) {
 		if role == "storage-proof-index-empty-file" {
 			// same question to ValidateTransactionElements as the previous role; only the transaction door differs
@@ -873,7 +922,7 @@ func judge(c *vlib.Ctx, st *stats, h *host, p probe, o judgeOpts) {
 			g                 *elem
 		}
 		vs := []variant{{"supp-used", role, "", nil}}
-		if genuine != nil {
+		if genuine != nil && (p.exp || fp%2 == 0) {
 			vs = append(vs, variant{"supp-used-placed", role + "/genuine-earlier", "genuine-earlier", genuine}, variant{"supp-used-placed", role + "/forged-earlier", "forged-earlier", genuine})
 		}
 		for _, v := range vs {
